@@ -1,5 +1,6 @@
 from copy import copy
 from datetime import date
+import enum
 import os
 from typing import (  # noqa: F401
     Any,
@@ -419,6 +420,10 @@ class Node:
                 return False
 
             if value_node.tag == 'tag:yaml.org,2002:str':
+                if isinstance(default, enum.Enum):
+                    # enum members are written by name, and for
+                    # class E(str, Enum) the names are not the values
+                    return bool(value_node.value == default.name)
                 return bool(value_node.value == default)
 
             # only the built-in scalar types above are supported, see the
